@@ -311,7 +311,7 @@ def run_C16(ctx):
 
 core.register("C11", "Props.C11", "theories/Props/C11.vo",
               ["C11_idle_disk_is_journal", "C11_invariant", "C11_structure", "C11_write_appends",
-               "C11_rotation", "C11_on_disk_size"])
+               "C11_rotation", "C11_on_disk_size", "C11_name_roundtrip", "C11_name_order"])
 
 
 def parse_stat_chunks(f):
@@ -460,5 +460,57 @@ def run_C11(ctx):
             if bad <= 3:
                 ctx.fail("oracle", "C11 oracle: " + why, dict(kind="seq", case=c, detail=why))
     ctx.k_checks["oracle-journal-layout"] = (bad == 0, len(cases))
+    # file-name codec: rendering of offsets and parsing of names (through load_chunk_ids)
+    rnd = ctx.rnd
+    nums = gen.BOUNDARY_INTS + [rnd.getrandbits(rnd.choice([8, 20, 40, 63, 64])) for _ in range(ctx.scale(2000, 20000))]
+    ncases = ["NAME %d" % x for x in nums]
+    ni = C.run_impl(ncases, ctx.wd, "names")
+    nm = C.run_model(ncases, ctx.wd, "names")
+    core.compare(ctx, "names-render", ncases, ni, nm)
+    pcases = []
+    for x, h in zip(nums, ni):
+        b = bytearray(bytes.fromhex(h[1:]))
+        pcases.append("PARSE " + gen.hx(b))
+        for _ in range(2):
+            m = bytearray(b)
+            k = rnd.randrange(6)
+            if k == 0:
+                m[rnd.randrange(len(m))] = rnd.choice(b"0123456789_-.rwalx9")
+            elif k == 1:
+                del m[rnd.randrange(len(m))]
+            elif k == 2:
+                m.insert(rnd.randrange(len(m)), rnd.choice(b"0123456789_"))
+            elif k == 3:
+                m = bytearray(b"r-" + bytes(rnd.choice(b"0123456789_") for _ in range(26)) + b".wal")
+            elif k == 4:
+                m = bytearray(b"r-" + bytes(rnd.choice(b"9876") for _ in range(26)) + b".wal")
+            else:
+                m = m[:-1] + b"L"
+            if b"/" in m or 0 in m:
+                continue
+            pcases.append("PARSE " + gen.hx(m))
+    pi = C.run_impl(pcases, ctx.wd, "parse")
+    pm = C.run_model(pcases, ctx.wd, "parse")
+    core.compare(ctx, "names-parse", pcases, pi, pm)
+    badn = 0
+    for x, h, c, r in zip(nums, ni, [p for p in pcases if True], pi):
+        pass
+    canon = {}
+    for c, r in zip(pcases, pi):
+        canon[c] = r
+    for x, h in zip(nums, ni):
+        if canon.get("PARSE " + h) != "some %d" % x:
+            badn += 1
+            if badn <= 3:
+                ctx.fail("oracle", "the name of chunk offset %d does not parse back to it: %s" % (x, canon.get("PARSE " + h)),
+                         dict(kind="name", case="NAME %d" % x, observed=h))
+    srt = sorted(zip(nums, ni))
+    for (a, ha), (b, hb) in zip(srt, srt[1:]):
+        if a < b and not bytes.fromhex(ha[1:]) < bytes.fromhex(hb[1:]):
+            badn += 1
+            ctx.fail("oracle", "file names do not sort like offsets: %d, %d" % (a, b), dict(kind="name", case="NAME %d / NAME %d" % (a, b)))
+            break
+    ctx.k_checks["oracle-name-roundtrip-order"] = (badn == 0, len(nums))
+    ctx.cov["evaluations"] = ctx.cov.get("evaluations", 0) + len(ncases) + len(pcases)
     cov(ctx, cases, impl, "histories x chunk limits incl. 0 and 1 (records) and 0, 1, 60, 150, 400 (bytes); after flush + idle the raw chunk files are decoded by an independent decoder: names abut, heads are the closing states, one record per accepted write in call order, every returned segment locates its record, rotation exactly at the limit, on_disk_size; non-trivial = contains a rotation or a refused operation")
     return core.finish(ctx, proof)
